@@ -68,15 +68,16 @@ pub open spec fn good(to: Map<usize, (BTreeSet<usize>, &Statement)>, done: spec_
 //@   endrewrite
 //@   rewrite equivalent
 //@- for dep in deps {
-//@-     recurse(dep, to_order, inserted, ordered).map_err(|mut cycle| {
-//@-         cycle.push(*statement);
-//@-         cycle
-//@-     })?;
-//@- }
 //@+ for dep in deps.iter() {
-//@+     match recurse(dep, to_order, inserted, ordered) { Ok(()) => {}, Err(mut cycle) => { cycle.push(*statement); return Err(cycle); } }
-//@+ }
-//@   why `for x in &set` is `set.iter()`; map_err with a closure followed by `?` is this match
+//@   why `for x in &set` is `for x in set.iter()`
+//@   endrewrite
+//@   rewrite equivalent
+//@- recurse(dep, to_order, inserted, ordered).map_err(|mut cycle| {
+//@-     cycle.push(*statement);
+//@-     cycle
+//@- })?;
+//@+ match recurse(dep, to_order, inserted, ordered) { Ok(()) => {}, Err(mut cycle) => { cycle.push(*statement); return Err(cycle); } }
+//@   why map_err with a closure followed by `?` is this match
 //@   endrewrite
 //@   inner recurse
 //@     attr #[verifier::exec_allows_no_decreases_clause]
